@@ -112,6 +112,13 @@ Qed.
 Theorem C05_fixed_width_total : forall v f b lv, fixed_width b -> shape f b -> wt v -> interp f v = IOk lv -> exists b', push v b = Ok b'.
 Proof. exact fixed_width_progress. Qed.
 
+(* ... and at the string / binary leaves, given room in the offset type (`room`: the length of the value and the new last offset fit
+   the 32- or 64-bit offset type of the column): the only other way a value of the mapping can be refused *)
+Theorem C05_bytes_total : forall v f k val offs data s, shape f (BdUtf8 k val offs data) -> wt v ->
+  (match v with VNone | VSome _ | VUnit | VUnitStruct | VNewtypeStruct _ => False | _ => True end) ->
+  interp f v = IOk (LBytes s) -> room (is_wide k) offs (length s) -> exists b', push v (BdUtf8 k val offs data) = Ok b'.
+Proof. exact bytes_progress. Qed.
+
 (* non-vacuity: a u16 above i8::MAX two levels down (inside a list inside a struct) is outside the mapping *)
 Example C05_nested_out_of_range :
   let f := mkField (b "r") (DStruct [mkField (b "l") (DList KLargeList (mkField (b "element") (DPrim (PInt I8)) false)) false]) false in
@@ -120,6 +127,7 @@ Proof. intros f lv. vm_compute. discriminate. Qed.
 
 Print Assumptions C05_unrepresentable_is_rejected.
 Print Assumptions C05_fixed_width_total.
+Print Assumptions C05_bytes_total.
 Print Assumptions C05_ser_int_exact.
 Print Assumptions C05_de_exact.
 Print Assumptions C05_union_unknown_variant.
